@@ -60,4 +60,42 @@ def run (s : St) (cs : List Bytes) : St × List Bytes :=
     let r := recv acc.1 c
     (r.1, acc.2 ++ r.2)) (s, [])
 
+/-! ### upward failures (C12): handing a frame upward may raise
+
+`receive` cuts a frame off the buffer BEFORE it hands it upward; an exception raised by the layers above ends the call and
+leaves the rest of the buffer for the next call. `bad f` says that handling frame `f` raises. -/
+
+/-- the loop with failures: frames handed upward (a failing one is the last), the buffer left, whether the call raised -/
+def peelF (bad : Bytes → Bool) (buf : Bytes) : List Bytes × Bytes × Bool :=
+  match buf with
+  | a :: b :: c :: d :: rest =>
+    let n := rd24 a b c
+    if _h : n ≤ (d :: rest).length then
+      if bad ((d :: rest).take n) then ([(d :: rest).take n], (d :: rest).drop n, true)
+      else
+        let r := peelF bad ((d :: rest).drop n)
+        ((d :: rest).take n :: r.1, r.2.1, r.2.2)
+    else ([], buf, false)
+  | _ => ([], buf, false)
+termination_by buf.length
+decreasing_by simp [List.length_drop]; omega
+
+/-- `receive(data)` of an enabled layer: new buffer, frames handed upward, raised? -/
+def recvF (bad : Bytes → Bool) (buf chunk : Bytes) : Bytes × List Bytes × Bool :=
+  let r := peelF bad (buf ++ chunk)
+  (r.2.1, r.1, r.2.2)
+
+structure RunF where
+  buf : Bytes := []
+  handed : List Bytes := []       -- every frame handed upward so far, in order (failing ones included)
+  raises : Nat := 0               -- calls that ended with an exception
+deriving Repr, DecidableEq
+
+/-- one `receive` call per chunk; the caller catches the exception and calls again with the next chunk -/
+def runF (bad : Bytes → Bool) (s : RunF) : List Bytes → RunF
+  | [] => s
+  | c :: cs =>
+    let r := recvF bad s.buf c
+    runF bad { buf := r.1, handed := s.handed ++ r.2.1, raises := s.raises + (if r.2.2 then 1 else 0) } cs
+
 end Yow.Segments
